@@ -233,6 +233,7 @@ JANET_CORE_FN(cfun_array_slice,
               "end of the array. By default, `start` is 0 and `end` is the length of the array. "
               "Note that if the range is negative, it is taken as (start, end] to allow a full "
               "negative slice range. Returns a new array.") {
+    janet_arity(argc, 1, 3);
     JanetView view = janet_getindexed(argv, 0);
     JanetRange range = janet_getslice(argc, argv);
     JanetArray *array = janet_array(range.end - range.start);
